@@ -115,6 +115,8 @@ PROPS = {
         explanation="C17Conc.concurrent_refines_set / order_respects_real_time / completed_in_order (generic atomic-step linearizability instantiated with Blk.B.step; premise = skeleton fact blocks.unlocked_state_access = []); C17.refines_set (outputs equal to the set model for every op sequence from any opened allocator: least free index handed out, ErrExhausted iff full, Available exact, reopen reproduces the set), geometry_valid_iff_accepted, ranges_disjoint, reopen_same_state, data_untouched; legacy_accepts_invalid is the kernel-checked witness of D4",
     ),
     "C12": dict(
+        generated=True,   # lock-region fact regenerated from timeout.go: heap, watcher counter, future.idx / future.f only under the lock
+        facts={"timeout.unlocked_state_access": [], "timeout.locked_methods": ["add", "cancel", "futureAsString", "watcher"]},
         lean=["GolibsVerif.Props.C12", "GolibsVerif.Props.C13Exec"],
         seq=[dict(comp="tmo", decisive=lambda d: d["op"].startswith("mon C12"))],
         go_cmds=("seq", "conc"),
@@ -215,7 +217,7 @@ PROPS = {
         seq=[dict(comp="kvinmem", driver="kv", args=["-focus", "C02"], decisive=lambda d: d["op"].startswith("mon C02") or d["op"].split(" ")[1:2] == ["cas"]),
              dict(comp="kvredis", driver="kv", args=["-focus", "C02"], decisive=lambda d: d["op"].startswith("mon C02") or d["op"].split(" ")[1:2] == ["cas"])],
         go_cmds=("seq", "conc"),
-        facts={"inmem.single_section_methods": ["CasByVersion", "Create", "Delete", "Get", "GetMany", "ListKeys", "Put", "PutMany"],
+        facts={"inmem.unlocked_state_access": [], "inmem.single_section_methods": ["CasByVersion", "Create", "Delete", "Get", "GetMany", "ListKeys", "Put", "PutMany"],
                "inmem.other_methods": ["WaitForVersionChange"]},
         conc=[dict(comp="kvconc-inmem", driver="kvlin", decisive=lambda d: d["op"].startswith("mon C02")),
               dict(comp="kvconc-redis", driver="kvlin", decisive=lambda d: d["op"].startswith("mon C02")),
@@ -227,6 +229,8 @@ PROPS = {
         explanation="LinThm.order_is_sequential / order_respects_real_time (any object whose operations take effect in one atomic step is linearizable in step order) + C03 refinements + C02 contract facts for all histories (fresh_versions, cas_same_version_at_most_once, racing_creators_one_winner, loser_changes_nothing). For Redis: C02Redis.simulates / linearizable — the command-level concurrent model of redis.go (any number of clients, any interleaving of their commands, unboundedly many lost WATCH/EXEC races and Create retries) is a run of the atomic-step system over Kv.Spec, hence linearizable with the contract's results; exec_sees_what_get_saw (the WATCH invariant), lin_once, ret_is_lin_result; the model is tied to redis.go + go-redis + miniredis by the command-level trace replay; free-running histories additionally get per-history Lean-validated witnesses",
     ),
     "C07": dict(
+        generated=True,   # lock-region fact regenerated from inmem.go: records / waiter table (and the helpers that assume the lock) only under the lock
+        facts={"inmem.unlocked_state_access": []},
         lean=["GolibsVerif.Props.C07", "GolibsVerif.Props.C07Exec"],
         seq=[],
         go_cmds=("seq", "conc"),
@@ -237,6 +241,8 @@ PROPS = {
         explanation="C07.return_sound, no_lost_wakeup, table_exact, no_bookkeeping_left, cancel_isolated, wake_enabled for any number of waiters/keys/writers and every interleaving of the critical sections",
     ),
     "C09": dict(
+        generated=True,   # lock-region fact regenerated from ecache.go: residents / in-flight table touched only under the lock
+        facts={"ecache.unlocked_state_access": [], "ecache.locked_methods": ["Clear", "GetOrCreate", "Remove"]},
         lean=["GolibsVerif.Props.C09", "GolibsVerif.Props.C09Exec", "GolibsVerif.Props.Lin"],
         seq=[],
         go_cmds=("seq", "conc"),
@@ -247,6 +253,8 @@ PROPS = {
         explanation="C09.single_flight (at most one creator per key; in-flight table exact), size_le_cap, step_simulates (every step is invisible or is the linearization point of one call and acts exactly like the sequential Lru.EC operation — forward simulation; with LinThm this gives linearizability), accounting (created = deleted + resident + unpublished at every state), waiter_enabled",
     ),
     "C13": dict(
+        generated=True,
+        facts={"timeout.unlocked_state_access": [], "timeout.locked_methods": ["add", "cancel", "futureAsString", "watcher"]},
         lean=["GolibsVerif.Props.C13", "GolibsVerif.Props.C13Live", "GolibsVerif.Props.C13Exec", "GolibsVerif.Props.C12"],
         seq=[],
         go_cmds=("seq", "conc"),
